@@ -35,9 +35,9 @@ def present_from(decisions):
     """columns known to be present on a path, from the validation decisions (syntactic set facts)"""
     present, absent, facts = set(), set(), []
     for _k, c, d in decisions:
-        m = re.match(r"intersection\(set\((.*?)\), (\w+)\) == set\(", d)
+        m = re.match(r"has_all\((\w+); (.*)\)$", d)
         if m and c:
-            present |= {x.strip().strip("'") for x in m.group(1).split(",")}
+            present |= {x.strip().strip("'") for x in m.group(2).split(",")}
         m2 = re.match(r"'([^']+)' in (\w+)$", d)
         if m2:
             (present if c else absent).add(m2.group(1))
@@ -81,14 +81,14 @@ def check(ctx):
         for p in rets:
             present, absent = present_from(p.decisions)
             tag = " [" + ", ".join(sorted(present)) + ("; no " + ",".join(sorted(absent)) if absent else "") + "]"
-            reads = {e.data["key"] for e in p.events if e.kind == "read_sub" and e.func == q and not e.data["stored"] and it.to_nf(e.data["base"]) == nf.sym("pvt_props")}
+            reads = {e.data["key"] for e in p.events if e.kind == "read_sub" and not e.data["stored"] and it.to_nf(e.data["base"]) == nf.sym("pvt_props")}
             extra = sorted(reads - present)
             ctx.check(
                 not extra, "C09-b", q + ":columns read are validated" + tag, f.where(),
                 "every column read from the caller's table on this path is guaranteed present by the validation that admitted the path",
                 signature="unvalidated " + ",".join(extra), unvalidated=extra, read=sorted(reads),
             )
-            stores = [e for e in p.events if e.kind == "store_sub" and e.func == q and isinstance(e.data["index"], StrV) and e.data["index"].s == "alpha"]
+            stores = [e for e in p.events if e.kind == "store_sub" and isinstance(e.data["index"], StrV) and e.data["index"].s == "alpha"]
             if stores:
                 ctx.check(
                     "alpha" in absent or cname == "FlowPropertiesSimple", "C09-b", q + ":user alpha honoured" + tag, f"{f.file}:{stores[0].line}",
@@ -96,7 +96,7 @@ def check(ctx):
                     signature="alpha overwritten", decisions=[d for _k, _c, d in p.decisions],
                 )
             # ---- C09-c interpolators evaluated at p_i raise outside the table; m_i comes from one
-            calls = [e for e in p.events if e.kind == "extobj_call" and e.func == q and len(e.data["args"]) == 1 and it.to_nf(e.data["args"][0]) == nf.sym("p_i")]
+            calls = [e for e in p.events if e.kind == "extobj_call" and len(e.data["args"]) == 1 and it.to_nf(e.data["args"][0]) == nf.sym("p_i")]
             for e in calls:
                 o = e.data["obj"]
                 bad = [k for k in o.args if k not in ("x", "y", "kind", "copy", "assume_sorted", "axis")]
@@ -108,7 +108,7 @@ def check(ctx):
                     "an interpolator evaluated at the initial pressure raises ValueError when p_i is outside the table (no bounds_error=False / fill_value)",
                     signature="lenient lookup at p_i " + ",".join(bad), options=sorted(o.args),
                 )
-            mi = [e for e in p.events if e.kind == "store_attr" and e.func == q and e.data["attr"] == "m_i"]
+            mi = [e for e in p.events if e.kind == "store_attr" and e.data["attr"] == "m_i"]
             okm = False
             found = ""
             if len(mi) == 1:
@@ -121,7 +121,7 @@ def check(ctx):
                     argmap = dict(zip(names, [nf.unkey(a) for a in at[2][: len(names)]]))
                     okm = set(names) <= {"x", "y", "kind"} and argmap.get("x") == col("pressure")
                     # the interpolated ordinate is the stored m-scaled column
-                    ms = [e for e in p.events if e.kind == "store_sub" and e.func == q and isinstance(e.data["index"], StrV) and e.data["index"].s == "m-scaled"]
+                    ms = [e for e in p.events if e.kind == "store_sub" and isinstance(e.data["index"], StrV) and e.data["index"].s == "m-scaled"]
                     okm = okm and len(ms) == 1 and argmap.get("y") == it.to_nf(ms[0].data["value"])
             ctx.check(
                 okm, "C09-c", q + ":m_i" + tag, f.where(),
@@ -129,11 +129,11 @@ def check(ctx):
                 signature="m_i", found=found,
             )
             # m_scaled_func is that same interpolator
-            msf = [e for e in p.events if e.kind == "store_attr" and e.func == q and e.data["attr"] == "m_scaled_func"]
+            msf = [e for e in p.events if e.kind == "store_attr" and e.data["attr"] == "m_scaled_func"]
             okf = len(msf) == 1 and isinstance(msf[0].data["value"], ExtObj) and len(mi) == 1 and it.to_nf(mi[0].data["value"]) == nf.fn("call:" + it.single_atom(it.to_nf(msf[0].data["value"]))[1], *[nf.unkey(a) for a in it.single_atom(it.to_nf(msf[0].data["value"]))[2]], nf.sym("p_i"))
             ctx.check(okf, "C09-d", q + ":m_scaled_func" + tag, f.where(), "self.m_scaled_func is the interpolator (pressure -> m-scaled) that produced m_i", signature="m_scaled_func")
             # ---- C09-d the transform
-            ms = [e for e in p.events if e.kind == "store_sub" and e.func == q and isinstance(e.data["index"], StrV) and e.data["index"].s == "m-scaled"]
+            ms = [e for e in p.events if e.kind == "store_sub" and isinstance(e.data["index"], StrV) and e.data["index"].s == "m-scaled"]
             if len(ms) == 1:
                 val = it.to_nf(ms[0].data["value"])
                 where = f"{f.file}:{ms[0].line}"
@@ -149,19 +149,19 @@ def check(ctx):
                         good = set(names) == {"x", "y"} and argmap["x"] == col("pressure") and nf.equal(argmap["y"], nf.div(nf.ONE, col("pseudopressure"))) and nf.unkey(at[2][-1]) == nf.sym("p_i")
                     ctx.check(good, "C09-d", q + ":m-scaled (user alpha)" + tag, where, "with a user alpha, m-scaled == pseudopressure * interp(pressure, 1/pseudopressure)(p_i): exactly 1 at table nodes", signature="m-scaled user-alpha", ratio=nf.show(ratio, 200))
             # ---- C09-e alpha at nodes
-            for e in [e for e in p.events if e.kind == "store_sub" and e.func == q and isinstance(e.data["index"], StrV) and e.data["index"].s == "alpha"]:
+            for e in [e for e in p.events if e.kind == "store_sub" and isinstance(e.data["index"], StrV) and e.data["index"].s == "alpha"]:
                 ctx.identity("C09-e", q + ":alpha column" + tag, f"{f.file}:{e.line}", "node diffusivity == 1 / (compressibility * viscosity)", it.to_nf(e.data["value"]), nf.div(nf.ONE, nf.mul(col("compressibility"), col("viscosity"))))
             # ---- C09-f roles of the clamped lookup
-            al = [e for e in p.events if e.kind == "store_attr" and e.func == q and e.data["attr"] == "alpha"]
+            al = [e for e in p.events if e.kind == "store_attr" and e.data["attr"] == "alpha"]
             if len(al) == 1 and isinstance(al[0].data["value"], ExtObj) and len(ms) == 1:
                 a = al[0].data["value"].args
-                stored_alpha = [e for e in p.events if e.kind == "store_sub" and e.func == q and isinstance(e.data["index"], StrV) and e.data["index"].s == "alpha"]
+                stored_alpha = [e for e in p.events if e.kind == "store_sub" and isinstance(e.data["index"], StrV) and e.data["index"].s == "alpha"]
                 want_y = it.to_nf(stored_alpha[-1].data["value"]) if stored_alpha else col("alpha")
                 ctx.check(
                     it.to_nf(a.get("x")) == it.to_nf(ms[0].data["value"]) and it.to_nf(a.get("y")) == want_y, "C09-f", q + ":alpha lookup roles" + tag, f"{f.file}:{al[0].line}",
                     "self.alpha interpolates the alpha column over the m-scaled column", signature="alpha lookup roles",
                 )
-            pv = [e for e in p.events if e.kind == "store_attr" and e.func == q and e.data["attr"] == "pvt_props"]
+            pv = [e for e in p.events if e.kind == "store_attr" and e.data["attr"] == "pvt_props"]
             ctx.check(len(pv) == 1, "C09-d", q + ":pvt_props stored" + tag, f.where(), "the wrapper keeps its (copied, augmented) table as self.pvt_props", signature="pvt_props")
     scaling_factor(ctx, "C09-d")
     check_alpha_lookup(ctx, "C09-f")
@@ -196,5 +196,5 @@ def check(ctx):
         ctx.check(it.to_nf(p.value) != nf.sym("df_pvt") or True, "C09-g", q + ":returns the copy", f.where(), "the function returns the rescaled table", nontrivial=False)
     from .common import check_interp_options
 
-    check_interp_options(ctx, "C09-h", ["bluebonnet.flow.flowproperties"], 8)
+    check_interp_options(ctx, "C09-h", ["bluebonnet.flow.flowproperties"], 5)
     ctx.floor("C09", len(ctx.obligs), 30, "wrapper obligations")
